@@ -1,4 +1,6 @@
 import BreezyVerif.Lemmas.C25Rbd
+import BreezyVerif.Lemmas.C25Touch
+import BreezyVerif.Lemmas.C25Steps
 import BreezyVerif.Props.C22
 /-!
 C25 — theorems.  All view lists, all graphs (`wf` = topologically numbered),
@@ -138,36 +140,129 @@ theorem forward_is_rbd_of_reverse (b : Branch) (t : Nat) (hw : wf b.g = true) (h
   refine ⟨_, r, hrev, hr, ?_⟩
   simp [logRequest, revisionLimits, calcView, generateAll, htip, hgv, levelLimit, hr]
 
-/-- **levels=1 lists exactly the left-hand history**, numbered from the tip's revno downwards. -/
+/-- the left-hand history, newest first, numbered from the tip's revno downwards, all at depth 0 -/
+def mainlineViews (b : Branch) : List V :=
+  (b.history.zipIdx).map fun (r, i) => (⟨r, [b.lastRevno - i], 0⟩ : V)
+
+theorem mainlineViews_revs (b : Branch) : (mainlineViews b).map (·.rev) = b.history := by
+  unfold mainlineViews
+  rw [List.map_map]
+  have : ((fun v : V => v.rev) ∘ fun (x : Nat × Nat) => (⟨x.1, [b.lastRevno - x.2], 0⟩ : V)) = Prod.fst := by
+    funext x; rfl
+  rw [this]
+  exact List.zipIdx_map_fst ..
+
+/-- every entry of `mainlineViews`: depth 0, a one-number revno, and that number names the revision -/
+theorem mainlineViews_numbered (b : Branch) (v : V) (hv : v ∈ mainlineViews b) :
+    v.depth = 0 ∧ ∃ k : Nat, v.revno = [k] ∧ 1 ≤ k ∧ k ≤ b.lastRevno ∧ b.getRevId k = .ok (.rev v.rev) ∧
+      b.history.reverse[k - 1]? = some v.rev := by
+  unfold mainlineViews at hv
+  rw [List.mem_map] at hv
+  obtain ⟨⟨r, i⟩, hmem, rfl⟩ := hv
+  have hget : b.history[i]? = some r := List.mem_zipIdx_iff_getElem?.mp hmem
+  have hL : b.lastRevno = b.history.length := rfl
+  have hi : i < b.history.length := by
+    rcases Nat.lt_or_ge i b.history.length with h | h
+    · exact h
+    · rw [List.getElem?_eq_none h] at hget; cases hget
+  refine ⟨rfl, b.lastRevno - i, rfl, by omega, by omega, ?_, ?_⟩
+  · apply getRevId_pos b (b.lastRevno - i) (by omega) (by omega) r
+    have : b.lastRevno - (b.lastRevno - i) = i := by omega
+    rw [this]; exact hget
+  · rw [List.getElem?_reverse (by omega)]
+    have : b.history.length - 1 - (b.lastRevno - i - 1) = i := by omega
+    rw [this]; exact hget
+
+/-- **levels=1 lists exactly the left-hand history**, in both directions, every revision once at depth 0,
+numbered from the tip's revno downwards — and that number is the revision's revno (`get_rev_id`). -/
 theorem level1_is_lefthand (b : Branch) (t : Nat) (htip : b.tip = some t) (fwd : Bool) :
-    ∃ l, logRequest b none none fwd 1 0 false = .ok l ∧
-      l.map (·.rev) = (if fwd then b.history.reverse else b.history) ∧ ∀ v ∈ l, v.depth = 0 := by
-  have hlin : linearView b none none false
-      = some ((b.history.zipIdx).map fun (r, i) => (⟨r, [b.lastRevno - i], 0⟩ : V)) := rfl
-  have hL0 : ∀ v ∈ (b.history.zipIdx).map (fun (r, i) => (⟨r, [b.lastRevno - i], 0⟩ : V)), v.depth = 0 := by
-    intro v hv
-    rw [List.mem_map] at hv
-    obtain ⟨_, _, rfl⟩ := hv
-    rfl
-  have hLrev : ((b.history.zipIdx).map fun (r, i) => (⟨r, [b.lastRevno - i], 0⟩ : V)).map (·.rev) = b.history := by
-    rw [List.map_map]
-    have : ((fun v : V => v.rev) ∘ fun (x : Nat × Nat) => (⟨x.1, [b.lastRevno - x.2], 0⟩ : V)) = Prod.fst := by
-      funext x; rfl
-    rw [this]
-    exact List.zipIdx_map_fst ..
+    logRequest b none none fwd 1 0 false = .ok (if fwd then (mainlineViews b).reverse else mainlineViews b) ∧
+      (mainlineViews b).map (·.rev) = b.history ∧
+      ∀ v ∈ mainlineViews b, v.depth = 0 ∧ ∃ k : Nat, v.revno = [k] ∧ b.getRevId k = .ok (.rev v.rev) := by
+  have hlin : linearView b none none false = some (mainlineViews b) := rfl
+  have hL0 : ∀ v ∈ mainlineViews b, v.depth = 0 := fun v hv => (mainlineViews_numbered b v hv).1
   have hkeep : ∀ l : List V, (∀ v ∈ l, v.depth = 0) → levelLimit 1 0 l = l := by
     intro l hl
     simp only [levelLimit, beq_self_eq_true, if_true]
     rw [List.filter_eq_self]
     intro v hv
     simp [hl v hv]
+  refine ⟨?_, mainlineViews_revs b, ?_⟩
+  · cases fwd
+    · simp [logRequest, revisionLimits, calcView, htip, hlin, hkeep _ hL0]
+    · simp [logRequest, revisionLimits, calcView, htip, hlin,
+        hkeep _ (fun v hv => hL0 v (List.mem_reverse.mp hv))]
+  · intro v hv
+    obtain ⟨h0, k, hk, _, _, hg, _⟩ := mainlineViews_numbered b v hv
+    exact ⟨h0, k, hk, hg⟩
+
+example : logRequest { g := [[], [0], [0], [1, 2]], tip := some 3 } none none false 1 0 false
+    = .ok [⟨3, [3], 0⟩, ⟨1, [2], 0⟩, ⟨0, [1], 0⟩] := by decide
+
+/-- **The levels=1 numbers are the numbers of the complete log**: every revision listed by levels=1 appears in
+the merge-sorted numbering (`get_revision_id_to_revno_map`) with the same one-number revno, and no other
+revision has a one-number revno there. -/
+theorem level1_numbers_agree_with_full (b : Branch) (t : Nat) (hw : wf b.g = true) (htip : b.tip = some t)
+    (ht : t < b.g.length) (hc : mainlineClean b = true) :
+    ∃ m, b.revnoMap = .ok m ∧ (∀ v ∈ mainlineViews b, (v.rev, v.revno) ∈ m) ∧
+      (∀ k x, (x, [k]) ∈ m → (⟨x, [k], 0⟩ : V) ∈ mainlineViews b) := by
+  obtain ⟨m, hm, _, hfwd, hconv⟩ := mainline_revno b t hw htip ht hc
+  have hL : b.lastRevno = b.history.length := rfl
+  refine ⟨m, hm, ?_, ?_⟩
+  · intro v hv
+    obtain ⟨_, k, hk, h1, _, _, hrev⟩ := mainlineViews_numbered b v hv
+    have := hfwd (k - 1) v.rev hrev
+    have hk1 : k - 1 + 1 = k := by omega
+    rw [hk1] at this
+    rw [hk]; exact this
+  · intro k x hx
+    obtain ⟨h1, hrev⟩ := hconv k x hx
+    have hklt : k - 1 < b.history.length := by
+      rcases Nat.lt_or_ge (k - 1) b.history.reverse.length with h | h
+      · simpa using h
+      · rw [List.getElem?_eq_none h] at hrev; cases hrev
+    rw [List.getElem?_reverse hklt] at hrev
+    unfold mainlineViews
+    rw [List.mem_map]
+    refine ⟨(x, b.history.length - 1 - (k - 1)), List.mem_zipIdx_iff_getElem?.mpr hrev, ?_⟩
+    have : b.lastRevno - (b.history.length - 1 - (k - 1)) = k := by omega
+    simp only [this]
+
+/-- **A levels=1 range lists exactly the left-hand ancestry of the end down to and including the start**
+(the start being a left-hand ancestor of the end, other than the end itself), in both directions, all at
+depth 0, each with its revno in the branch. -/
+theorem level1_range (b : Branch) (t s e : Nat) (htip : b.tip = some t) (fwd : Bool) (hne : s ≠ e)
+    (hlim : revisionLimits b (some (b.lazyRevno (.rev s), .rev s)) (some (b.lazyRevno (.rev e), .rev e)) = .ok ())
+    (hs : (lefthand b.g (e + 1) e).contains s = true) :
+    let seg : List V := ((lefthand b.g (e + 1) e).takeWhile (· != s) ++ [s]).map fun r => ⟨r, revnoStr b r, 0⟩
+    logRequest b (some s) (some e) fwd 1 0 false = .ok (if fwd then seg.reverse else seg) := by
+  intro seg
+  have hlin : linearView b (some s) (some e) false = some seg := by
+    unfold linearView
+    simp only [hs, if_true, seg, Bool.false_eq_true, if_false, List.map_append, List.map_cons, List.map_nil]
+  have hseg0 : ∀ v ∈ seg, v.depth = 0 := by
+    intro v hv
+    simp only [seg, List.mem_map] at hv
+    obtain ⟨_, _, rfl⟩ := hv
+    rfl
+  have hkeep : ∀ l : List V, (∀ v ∈ l, v.depth = 0) → levelLimit 1 0 l = l := by
+    intro l hl
+    simp only [levelLimit, beq_self_eq_true, if_true]
+    rw [List.filter_eq_self]
+    intro v hv
+    simp [hl v hv]
+  have hse : (some s == some e) = false := by simpa using hne
+  unfold logRequest
+  simp only [Option.map_some, hlim]
   cases fwd
-  · refine ⟨_, ?_, hLrev, hL0⟩
-    simp [logRequest, revisionLimits, calcView, htip, hlin, hkeep _ hL0]
-  · refine ⟨((b.history.zipIdx).map fun (r, i) => (⟨r, [b.lastRevno - i], 0⟩ : V)).reverse, ?_, ?_, ?_⟩
-    · simp [logRequest, revisionLimits, calcView, htip, hlin, hkeep _ (fun v hv => hL0 v (List.mem_reverse.mp hv))]
-    · rw [List.map_reverse, hLrev]; rfl
-    · intro v hv; exact hL0 v (List.mem_reverse.mp hv)
+  · simp [calcView, htip, hse, hlin, hkeep _ hseg0]
+  · simp [calcView, htip, hse, hlin, hkeep _ (fun v hv => hseg0 v (List.mem_reverse.mp hv))]
+
+example :
+    let b : Branch := { g := [[], [0], [0], [1, 2], [3], [4]], tip := some 5 }
+    revisionLimits b (some (b.lazyRevno (.rev 1), .rev 1)) (some (b.lazyRevno (.rev 4), .rev 4)) = .ok () ∧
+    (lefthand b.g (4 + 1) 4).contains 1 = true ∧
+    logRequest b (some 1) (some 4) false 1 0 false = .ok [⟨4, [4], 0⟩, ⟨3, [3], 0⟩, ⟨1, [2], 0⟩] := by decide
 
 /-- **levels=k is the depth filter of the complete log** (same request otherwise). -/
 theorem levels_is_filter (b : Branch) (start stop : Option Nat) (fwd excl : Bool) (k : Nat) (hk : 2 ≤ k)
@@ -200,6 +295,122 @@ theorem limit_is_prefix (levels limit : Nat) (l : List V) :
     levelLimit levels limit l = if limit == 0 then levelLimit levels 0 l else (levelLimit levels 0 l).take limit := by
   unfold levelLimit
   split <;> simp_all
+
+/-- with levels=1 and no range the view does not depend on the delayed-graph-generation switch -/
+theorem calcView_level1_delayed (b : Branch) (fwd excl : Bool) (d : Bool) :
+    calcView b none none fwd false d excl = calcView b none none fwd false true excl := by
+  have hlin : linearView b none none excl = some (mainlineViews b) := rfl
+  unfold calcView
+  split
+  · rfl
+  · split
+    · rfl
+    · simp [hlin]
+
+theorem levelLimit_take (levels limit : Nat) (l : List V) (hl : limit ≠ 0) :
+    levelLimit levels limit l = (levelLimit levels 0 l).take limit := by
+  have : (limit == 0) = false := by simpa using hl
+  simp [levelLimit, this]
+
+/-- **A limit lists the prefix of the unlimited listing of the same request** — at request level, for every
+request with a range (start or end given; any direction, levels, exclude_common_ancestry) and for every
+levels=1 request.  (For an unrestricted log with merges the limit also switches on delayed graph
+generation; there the equality is checked by the oracle on every run, not proved.) -/
+theorem limit_is_prefix_request (b : Branch) (start stop : Option Nat) (fwd : Bool) (levels limit : Nat)
+    (excl : Bool) (h : (start.isSome || stop.isSome || levels == 1) = true) (hl : limit ≠ 0) :
+    logRequest b start stop fwd levels limit excl =
+      (logRequest b start stop fwd levels 0 excl).map (fun l : List V => l.take limit) := by
+  have hl' : (limit != 0) = true := by simpa using hl
+  have key : ∀ (R : Except LErr Unit) (C : Except LErr (List V × Bool)),
+      (match R with
+        | .error e => (.error e : Except LErr (List V))
+        | .ok () => match C with
+          | .error e => .error e
+          | .ok (l, false) => .ok (levelLimit levels limit l)
+          | .ok (_, true) => .error .unsupported) =
+      (match R with
+        | .error e => (.error e : Except LErr (List V))
+        | .ok () => match C with
+          | .error e => .error e
+          | .ok (l, false) => .ok (levelLimit levels 0 l)
+          | .ok (_, true) => .error .unsupported).map (fun l : List V => l.take limit) := by
+    intro R C
+    cases R with
+    | error e => rfl
+    | ok u =>
+      cases C with
+      | error e => rfl
+      | ok p =>
+        obtain ⟨l, flag⟩ := p
+        cases flag
+        · simp only [Except.map, levelLimit_take levels limit l hl]
+        · rfl
+  by_cases hr : (start.isSome || stop.isSome) = true
+  · have h1 : (limit != 0 || start.isSome || stop.isSome) = true := by
+      rw [Bool.or_assoc, hr, Bool.or_true]
+    have h0 : ((0 : Nat) != 0 || start.isSome || stop.isSome) = true := by
+      rw [Bool.or_assoc, hr, Bool.or_true]
+    unfold logRequest
+    simp only [h1, h0]
+    exact key _ _
+  · have hr' : (start.isSome || stop.isSome) = false := by simpa using hr
+    have hlv : levels = 1 := by
+      rw [hr', Bool.false_or] at h
+      simpa using h
+    have hs : start = none := by
+      cases start with
+      | none => rfl
+      | some _ => simp at hr'
+    have he : stop = none := by
+      cases stop with
+      | none => rfl
+      | some _ => simp [hs] at hr'
+    subst hlv hs he
+    unfold logRequest
+    have hg : ((1 : Nat) != 1) = false := rfl
+    simp only [hg, calcView_level1_delayed b fwd excl (limit != 0 || none.isSome || none.isSome),
+      calcView_level1_delayed b fwd excl ((0 : Nat) != 0 || none.isSome || none.isSome)]
+    exact key _ _
+
+example : logRequest { g := [[], [0], [0], [1, 2], [3]], tip := some 4 } (some 1) none false 0 2 false
+    = .ok [⟨4, [4], 0⟩, ⟨3, [3], 0⟩] ∧
+    logRequest { g := [[], [0], [0], [1, 2], [3]], tip := some 4 } (some 1) none false 0 0 false
+    = .ok [⟨4, [4], 0⟩, ⟨3, [3], 0⟩, ⟨2, [1, 1, 1], 1⟩, ⟨1, [2], 0⟩] := by decide
+
+theorem adjustDepths_ids : ∀ (adj : Option Nat) (l : List V),
+    (adjustDepths adj l).map (fun v => (v.rev, v.revno)) = l.map fun v => (v.rev, v.revno)
+  | _, [] => rfl
+  | adj, v :: l => by
+    unfold adjustDepths
+    simp only []
+    split <;> simp [adjustDepths_ids _ l]
+
+/-- **every graph view — with or without depth rebasing, any range, any stop rule — lists a sub-sequence of
+the merge-sorted list with the merge-sorted revnos** (nothing invented, duplicated, reordered or renumbered;
+rebasing touches depths only) -/
+theorem graph_view_sublist_any (b : Branch) (start stop : Option Nat) (rebase excl : Bool) (ms : List MS)
+    (l : List V) (hms : b.mergeSorted = .ok ms) (h : graphView b start stop rebase excl = .ok l) :
+    List.Sublist (l.map fun v => (v.rev, v.revno)) (ms.map fun e => (e.rev, e.revno)) := by
+  unfold graphView at h
+  split at h
+  · cases h
+  · cases hit : b.iterMergeSorted (stop.map RevId.rev) (start.map RevId.rev)
+        (if excl then .withMergesNoCommon else .withMerges) false with
+    | error e =>
+      rw [hit] at h
+      cases e <;> simp [liftE] at h
+    | ok a =>
+      rw [hit] at h
+      simp only [liftE, Except.ok.injEq] at h
+      have hsub := iter_sublist b _ _ _ false ms a hms hit
+      simp only [Bool.false_eq_true, if_false] at hsub
+      have hids : l.map (fun v => (v.rev, v.revno)) = a.map fun e => (e.rev, e.revno) := by
+        subst h
+        cases rebase
+        · simp only [Bool.false_eq_true, if_false, List.map_map]; rfl
+        · simp only [if_true, adjustDepths_ids, List.map_map]; rfl
+      rw [hids]
+      exact hsub.map _
 
 /-- every graph view is a sub-sequence of the merge-sorted list -/
 theorem graph_view_sublist (b : Branch) (start stop : Option Nat) (excl : Bool) (ms : List MS) (l : List V)
@@ -335,6 +546,104 @@ theorem touching_members (modified : List Nat) (inc : Bool) (l : List V) (x : V)
   rcases touching_subset modified inc l [none] x h with h | h
   · exact h
   · simp at h
+
+/-! ## the per-file filter computes its specification -/
+
+/-- **Every merge-sorted list is stepwise**: the tip is at depth 0 and from one revision to the next (older)
+one the merge depth goes up by at most one (it may drop by any amount). -/
+theorem mergeSort_stepwise (g : Graph) (tip : Nat) (ms : List MS) (hw : wf g = true) (ht : tip < g.length)
+    (h : mergeSort g tip = some ms) : stepwise 1 (ms.map ofMS) = true :=
+  mergeSort_stepwise_core g ((wf_iff g).mp hw) tip ht ms h
+
+/-- **The merge stack computes the specification.**  On every view whose depths go up by at most one per step,
+for both values of `include_merges`, `_filter_revisions_touching_path` lists exactly the revisions that
+modified the file or enclose (merge) a revision that did — in view order, each once per occurrence. -/
+theorem touching_eq_spec (modified : List Nat) (inc : Bool) (l : List V) (h : stepwise 1 l = true) :
+    touching modified inc l = enclosingExpected modified inc l := by
+  have := touchLoop_spec modified inc l [none] h
+  rw [touching, this]
+  simp [emitP]
+
+-- non-vacuity: a view that drops two levels in one step (the shape the seeded change S1 broke)
+example : stepwise 1 [⟨4, [3], 0⟩, ⟨3, [1, 1, 2], 1⟩, ⟨2, [1, 2, 1], 2⟩, ⟨1, [2], 0⟩, ⟨0, [1], 0⟩] = true := by decide
+example : touching [2] false [⟨4, [3], 0⟩, ⟨3, [1, 1, 2], 1⟩, ⟨2, [1, 2, 1], 2⟩, ⟨1, [2], 0⟩, ⟨0, [1], 0⟩]
+    = [⟨4, [3], 0⟩] := by decide
+-- the hypothesis matters: when the depth jumps by two the stack algorithm loses the enclosing revision
+example : stepwise 1 [⟨2, [3], 0⟩, ⟨1, [1, 2, 1], 2⟩] = false ∧
+    touching [1] true [⟨2, [3], 0⟩, ⟨1, [1, 2, 1], 2⟩] ≠ enclosingExpected [1] true [⟨2, [3], 0⟩, ⟨1, [1, 2, 1], 2⟩] := by
+  decide
+
+/-- **Per-file log of a whole branch**: the filter applied to the complete view of a branch (the only way
+`_log_revision_iterator_using_per_file_graph` calls it without a range) is the specification. -/
+theorem touching_full_view (b : Branch) (t : Nat) (hw : wf b.g = true) (htip : b.tip = some t)
+    (ht : t < b.g.length) (modified : List Nat) (inc : Bool) :
+    ∃ view, logRequest b none none false 0 0 false = .ok view ∧
+      touching modified inc view = enclosingExpected modified inc view := by
+  obtain ⟨ms, hms, hlog, _⟩ := view_complete_once b t hw htip ht
+  exact ⟨_, hlog, touching_eq_spec modified inc _ (mergeSort_stepwise b.g t ms hw ht hms)⟩
+
+theorem enclosingExpected_sublist (modified : List Nat) (inc : Bool) : ∀ l : List V,
+    List.Sublist (enclosingExpected modified inc l) l
+  | [] => List.Sublist.slnil
+  | v :: l => by
+    unfold enclosingExpected
+    split
+    · exact (enclosingExpected_sublist modified inc l).cons_cons v
+    · exact (enclosingExpected_sublist modified inc l).cons v
+
+/-- a revision of the view that modified the file is in the specification (with merges: any; without: depth 0) -/
+theorem enclosingExpected_contains (modified : List Nat) (inc : Bool) : ∀ (l : List V) (v : V), v ∈ l →
+    modified.contains v.rev = true → (inc || v.depth == 0) = true → v ∈ enclosingExpected modified inc l
+  | [], _, h, _, _ => by cases h
+  | x :: l, v, h, hm, hp => by
+    unfold enclosingExpected
+    rcases List.mem_cons.mp h with rfl | h
+    · rw [hm, hp]; simp
+    · have := enclosingExpected_contains modified inc l v h hm hp
+      split
+      · exact List.mem_cons_of_mem _ this
+      · exact this
+
+/-- whatever the specification lists modified the file or is followed, at greater depth throughout, by a
+revision that did; and it passes the merge test -/
+theorem enclosingExpected_reason (modified : List Nat) (inc : Bool) : ∀ (l : List V) (x : V),
+    x ∈ enclosingExpected modified inc l →
+      ∃ pre post, l = pre ++ x :: post ∧
+        (modified.contains x.rev || groupHasMod modified x.depth post) = true ∧ (inc || x.depth == 0) = true
+  | [], _, h => by simp [enclosingExpected] at h
+  | v :: l, x, h => by
+    unfold enclosingExpected at h
+    split at h
+    · rename_i hc
+      rcases List.mem_cons.mp h with rfl | h
+      · simp only [Bool.and_eq_true] at hc
+        exact ⟨[], l, rfl, hc.1, hc.2⟩
+      · obtain ⟨pre, post, hl, h1, h2⟩ := enclosingExpected_reason modified inc l x h
+        exact ⟨v :: pre, post, by rw [hl]; rfl, h1, h2⟩
+    · obtain ⟨pre, post, hl, h1, h2⟩ := enclosingExpected_reason modified inc l x h
+      exact ⟨v :: pre, post, by rw [hl]; rfl, h1, h2⟩
+
+/-- **Mainline revisions that modified the file are listed** — with and without merges (levels=1 uses
+`include_merges = False`). -/
+theorem touching_lists_modified (modified : List Nat) (inc : Bool) (l : List V) (h : stepwise 1 l = true) (v : V)
+    (hv : v ∈ l) (hm : modified.contains v.rev = true) (hp : (inc || v.depth == 0) = true) :
+    v ∈ touching modified inc l := by
+  rw [touching_eq_spec modified inc l h]
+  exact enclosingExpected_contains modified inc l v hv hm hp
+
+/-- **Nothing else is listed**: a listed revision modified the file or encloses a revision that did. -/
+theorem touching_listed_reason (modified : List Nat) (inc : Bool) (l : List V) (h : stepwise 1 l = true) (x : V)
+    (hx : x ∈ touching modified inc l) :
+    ∃ pre post, l = pre ++ x :: post ∧
+      (modified.contains x.rev || groupHasMod modified x.depth post) = true ∧ (inc || x.depth == 0) = true := by
+  rw [touching_eq_spec modified inc l h] at hx
+  exact enclosingExpected_reason modified inc l x hx
+
+/-- the listing keeps the order of the view -/
+theorem touching_sublist (modified : List Nat) (inc : Bool) (l : List V) (h : stepwise 1 l = true) :
+    List.Sublist (touching modified inc l) l := by
+  rw [touching_eq_spec modified inc l h]
+  exact enclosingExpected_sublist modified inc l
 
 example : touching [2] true [⟨3, [3], 0⟩, ⟨2, [1, 1, 1], 1⟩, ⟨1, [2], 0⟩, ⟨0, [1], 0⟩]
     = [⟨3, [3], 0⟩, ⟨2, [1, 1, 1], 1⟩] := by decide
